@@ -130,6 +130,11 @@ def c11_cases(chk, quick):
         elif i % 4 == 3:
             c["hasher"] = "ident"          # a true identity hasher: hashes are neighbouring small integers
             c["elems"] = "small" if i % 8 == 3 else "sentinel"   # ... or the extreme 64-bit values (0, 2^64-1, 2^63, ...)
+    # 4-byte elements behind the crate's identity hasher, labels in byte-structured pairs
+    for i, c in enumerate(cases):
+        if i % 16 == 5:
+            c["hasher"] = "nohash32"
+            c["elems"] = "paired32"
     # sketch sizes beyond one byte (and, thorough, beyond two bytes) on a few random sequences
     # sequences of a few thousand elements (buffers, block-wise processing) with a small sketch
     for _ in range(2 if quick else 6):
